@@ -280,6 +280,24 @@ func ruleDBMethodsCheckClosed(p *Prog, r *Report, rule string) {
 		} else {
 			r.Fail(name, "closed-checked-first:"+kind, "the method touches the DB only when db.ok() == nil", detail, pos, path)
 		}
+		// closed is closed: no success answer (nil error) either without the closed test — a fast path
+		// ahead of db.ok() that touches nothing still tells the caller of a closed DB "fine"
+		succ := func(in ssa.Instruction) bool {
+			ret, isRet := in.(*ssa.Return)
+			if !isRet || len(ret.Results) == 0 || !isErrorType(ret.Results[len(ret.Results)-1].Type()) {
+				return false
+			}
+			return returnIsSuccess(ret)
+		}
+		if countInstr(target, succ) > 0 {
+			gs2 := GuardSpec{Rule: "no-success-unless-open", Fn: target, Target: succ, TargetDesc: "returning a nil error", Atoms: []Atom{okErrNil}, G: func(a []bool) bool { return a[0] }, GDesc: "db.ok() == nil", MinTargets: 1}
+			ok2, kind2, detail2, pos2, path2, _ := evalGuard(p, gs2)
+			if ok2 {
+				r.OK(name, "no-success-unless-open", "a nil error is returned only when db.ok() == nil")
+			} else {
+				r.Fail(name, "no-success-unless-open:"+kind2, "a nil error is returned only when db.ok() == nil", detail2, pos2, path2)
+			}
+		}
 	}
 	// ok() reports the closed flag
 	if fn := resolveFn(p, r, "leveldb", "(*DB).ok"); fn != nil {
